@@ -706,6 +706,38 @@ Definition consb (h : heap) : bool :=
 
 Definition heap_ok (h : heap) : bool := rangeb h && consb h.
 
+(* ---- the input-side condition: the reply as parsed ---- *)
+
+(* tree-shaped: no node is the child of two nodes *)
+Definition parents_unique (h : heap) : bool :=
+  forallb (fun p1 =>
+    forallb (fun p2 =>
+      Nat.eqb p1 p2 ||
+      negb (existsb (fun c => existsb (Nat.eqb c) (n_kids (getn h p2))) (n_kids (getn h p1))))
+      (seq 0 (length h))) (seq 0 (length h)).
+
+(* an element whose href is answered is a bare referrer: no children of its
+   own and no arrayType of its own *)
+Definition bare_refs (h : heap) (b : nat) : bool :=
+  forallb (fun nd =>
+    match get_any NM_HREF (n_attrs nd) with
+    | None => true
+    | Some hr =>
+        match cat_get (the_catalog h b) (a_val hr) with
+        | None => true
+        | Some _ =>
+            (match n_kids nd with [] => true | _ => false end) &&
+            (match get_ns NM_ATY NS_ENC (n_attrs nd) with None => true | Some _ => false end)
+        end
+    end) h.
+
+(* everything the equivalence theorem asks of the reply, as one boolean
+   function of the parsed Body: referenced elements are no references
+   themselves, one href per element, the Body is a reference to nothing and
+   nobody's child, child ids are nodes, one parent per node, bare referrers *)
+Definition input_ok (h : heap) (b : nat) : bool :=
+  wf_refs h b && body_top h b && rangeb h && parents_unique h && bare_refs h b.
+
 Fixpoint height (t : tree) : nat :=
   match t with T _ _ _ _ ks => Datatypes.S (fold_right (fun k m => Nat.max (height k) m) O ks) end.
 
@@ -783,12 +815,15 @@ Definition mr_guard (c : mcase) : bool :=
   match resp_of c with
   | None => false
   | Some r =>
-      wf_refs (c_out c) (c_out_body c) && body_top (c_out c) (c_out_body c) &&
-      first_root_is (c_out c) (c_out_body c) r &&
-      match process (c_fuel c) (c_out c) (c_out_body c) with
-      | Some h' => heap_ok h'
-      | None => false
-      end
+      input_ok (c_out c) (c_out_body c) && first_root_is (c_out c) (c_out_body c) r
+  end.
+
+(* what input_ok is proved to imply (input_ok_heap_ok), evaluated as well *)
+Definition mr_heap_ok (c : mcase) : bool :=
+  negb (input_ok (c_out c) (c_out_body c)) ||
+  match process (c_fuel c) (c_out c) (c_out_body c) with
+  | Some h' => heap_ok h'
+  | None => false
   end.
 
 (* the theorem's own instance, evaluated: model on the heap = spec on the tree *)
